@@ -202,10 +202,250 @@ theorem full_teardown_is_init (cfg : Cfg) (hk : cfg.kindChecked = true) (ops : L
       rw [ha] at this
       simp at this
 
+/-! ## failed entry points: every other handle of the process is untouched
+
+The family "a call that FAILS changes nothing another handle can see".  In the model every failing branch of every call returns the
+world it was given, with two exceptions that the theorems name: `Hendaccess` of a live access id whose file id is dead (unreachable
+in a source with the per-id test of `Hclose`: `endaccess_of_live_aid_succeeds`), and the use count of the DD atom group after a
+failed `HTPstart` inside `Hopen` (`ddAfterFailedStart`, read from the source by Tie A).  The DD group holds the DD id behind EVERY
+access element of EVERY open file: it must exist as long as any file record does (`dd_group_outlives_files`). -/
+
+theorem hopen_fail_state (w : World) (p a : Nat) (o : Bool) (hf : (hopen w p a o).2 = .fail) : (hopen w p a o).1 = w := by
+  revert hf; unfold hopen; repeat' split
+  all_goals first
+    | (intro _; rfl)
+    | (intro h; cases h)
+
+/-- `failed_open_keeps_handles`: an `Hopen` that cannot succeed — whatever else is open, whatever stage it gives up at (operating
+    system, magic number, DD blocks), whatever the access mode — returns FAIL and leaves both id maps, every file record (refcount,
+    attach, access), every access record and the pointer counter exactly as they were; the use count of DDGROUP is unchanged
+    unless the failure is inside `HTPstart`, where it becomes `ddAfterFailedStart`. -/
+theorem failed_open_keeps_handles (w : World) (path acc : Nat) (st : OpenStage) (hf : (hopenBad w path acc st).2 = .fail) :
+    (hopenBad w path acc st).1 = setDd w (hopenBad w path acc st).1.ddUse ∧
+    ((hopenBad w path acc st).1.ddUse = w.ddUse ∨
+      (st = .dd ∧ (hopenBad w path acc st).1.ddUse = ddAfterFailedStart w.ddUse)) := by
+  revert hf; unfold hopenBad; repeat' split
+  all_goals first
+    | (intro _; exact ⟨rfl, Or.inl rfl⟩)
+    | (intro _; exact ⟨rfl, Or.inr ⟨rfl, rfl⟩⟩)
+    | (intro hf; rw [hopen_fail_state _ _ _ _ hf]; exact ⟨rfl, Or.inl rfl⟩)
+
+/-- … and it always fails when the path is not open and the file is not made anew -/
+theorem bad_open_fails (w : World) (path acc : Nat) (st : OpenStage) (hnone : findRec w path = none) (hc : acc ≠ DFACC_CREATE) :
+    (hopenBad w path acc st).2 = .fail := by
+  have h2 : (acc == DFACC_CREATE) = false := by simpa using hc
+  unfold hopenBad
+  split
+  · rfl
+  · simp only [hnone, h2, Bool.false_eq_true, if_false]
+    cases st <;> rfl
+
+/-- `failed_step_keeps_handles` (any state, any configuration): a call of the file table that returns FAIL leaves the world as it
+    was — except for the DD use count (above) and except `Hendaccess` of an id that does designate an access record. -/
+theorem failed_step_keeps_handles (cfg : Cfg) (w : World) (op : Op) (hf : (step cfg w op).2 = .fail)
+    (hend : ∀ id, op = .endaccess id → ∀ q a, lookA cfg w id ≠ .acc q a) :
+    (step cfg w op).1 = setDd w (step cfg w op).1.ddUse := by
+  cases op with
+  | nextread id f => simp only [step, nextRead_state]; rfl
+  | hopen p a o => simp only [step] at hf ⊢; rw [hopen_fail_state _ _ _ _ hf]; rfl
+  | hopenbad p a st => simp only [step] at hf ⊢; exact (failed_open_keeps_handles w p a st hf).1
+  | hclose id =>
+    revert hf; simp only [step, hclose, hcloseRec]; repeat' split
+    all_goals first
+      | (intro _; rfl)
+      | (intro h; cases h)
+  | startaccess id f wr =>
+    revert hf; simp only [step, startAccess]; repeat' split
+    all_goals first
+      | (intro _; rfl)
+      | (intro h; cases h)
+  | endaccess id =>
+    have hnot := hend id rfl
+    revert hf; simp only [step, endAccess]; split
+    · intro _; rfl
+    · intro _; rfl
+    · rename_i q a hl; exact absurd hl (hnot q a)
+  | usefid id => rfl
+  | useaid id => rfl
+
+/-- `failed_call_keeps_handles`: after EVERY history (source with the kind test and the per-id test of `Hclose`), whatever is open
+    — one file, two, several, with any number of access elements — a call that returns FAIL (an `Hopen` of a damaged file, of a
+    directory, with a bad mode; `Hstartaccess` on a missing or unreadable element; a stale or foreign id given to anything) leaves
+    every id, every record and every counter of the file table exactly as it was.  Only the DD use count may differ. -/
+theorem failed_call_keeps_handles (cfg : Cfg) (hk : cfg.kindChecked = true) (hc : cfg.closeChecksAids = true) (ops : List Op)
+    (hn : ops.length < 2 ^ 28) (op : Op) (hf : (step cfg (after cfg ops) op).2 = .fail) :
+    (step cfg (after cfg ops) op).1 = setDd (after cfg ops) (step cfg (after cfg ops) op).1.ddUse := by
+  apply failed_step_keeps_handles cfg _ op hf
+  intro id hop q a hl
+  subst hop
+  rw [endaccess_of_live_aid_succeeds cfg hk hc ops hn id q a hl] at hf
+  cases hf
+
+/-- the fact about the CURRENT source the next theorems stand on (Tie A: `H4.Gen.Src`): `HTPstart` takes the DD group before it
+    reads, or nothing gives a use back after a failed start.  A source that takes the group only after reading AND ends the DD list
+    of a failed start makes this `decide` fail. -/
+theorem current_failed_start_balanced :
+    (H4.Gen.Src.HTPSTART_TAKES_DDGROUP_FIRST ||
+      !(H4.Gen.Src.HOPEN_ENDS_DDLIST_OF_FAILED_START || H4.Gen.Src.HTPSTART_FAILURE_RELEASES_DDGROUP)) = true := by decide
+
+/-- a failed `HTPstart` never takes a use of the DD group away from the files that are open -/
+theorem failed_start_keeps_dd_group (n : Nat) : n ≤ ddAfterFailedStart n := by
+  have h := current_failed_start_balanced
+  unfold ddAfterFailedStart ddAfterFailedStartOf
+  generalize H4.Gen.Src.HTPSTART_TAKES_DDGROUP_FIRST = a at *
+  generalize (H4.Gen.Src.HOPEN_ENDS_DDLIST_OF_FAILED_START || H4.Gen.Src.HTPSTART_FAILURE_RELEASES_DDGROUP) = b at *
+  cases a <;> cases b <;> simp at h ⊢ <;> omega
+
+/-- `failed_start_takes_use_of_another_file` (a source that takes the DD group only AFTER the DD blocks are read and whose `Hopen`
+    ends the DD list of a failed start; engine keys `ids-dd-group-use-below-open-files`, `ids-failed-call-disturbs-live-handle`):
+    with one file open, one failed `Hopen` of a damaged file brings the use count to 0 — the group is destroyed under the open file. -/
+theorem failed_start_takes_use_of_another_file : ddAfterFailedStartOf false true 1 = 0 ∧ ddAfterFailedStartOf false true 2 = 1 := by decide
+
+theorem filter_key_length {α} (l : List (Nat × α)) (hk : (l.map (·.1)).Nodup) {p : Nat} {r : α} (h : (p, r) ∈ l) :
+    (l.filter (fun e => e.1 != p)).length + 1 = l.length := by
+  induction l with
+  | nil => cases h
+  | cons x t ih =>
+    simp only [List.map_cons, List.nodup_cons] at hk
+    by_cases hx : x.1 = p
+    · have hall : ∀ e ∈ t, (e.1 != p) = true := by
+        intro e he
+        have : e.1 ≠ x.1 := fun heq => hk.1 (heq ▸ List.mem_map_of_mem he)
+        simpa [hx] using this
+      have : t.filter (fun e => e.1 != p) = t := List.filter_eq_self.mpr hall
+      simp [hx, this]
+    · have hmem : (p, r) ∈ t := by
+        rcases List.mem_cons.mp h with rfl | h'
+        · exact absurd rfl hx
+        · exact h'
+      have := ih hk.2 hmem
+      simp [hx]; omega
+
+/-- one step: the DD use count stays ≥ the number of file records; and it stays EQUAL when the step is not a failed `HTPstart`
+    that moves the count -/
+theorem step_dd (cfg : Cfg) (hk : cfg.kindChecked = true) (w : World) (op : Op) (hw : WF w) :
+    (w.frecs.length ≤ w.ddUse → (step cfg w op).1.frecs.length ≤ (step cfg w op).1.ddUse) ∧
+    ((∀ p a, op = .hopenbad p a .dd → ddAfterFailedStart w.ddUse = w.ddUse) → w.frecs.length = w.ddUse →
+      (step cfg w op).1.frecs.length = (step cfg w op).1.ddUse) := by
+  have hopenF : ∀ p a o, (hopen w p a o).1.frecs.length = w.frecs.length + ((hopen w p a o).1.ddUse - w.ddUse) ∧
+      w.ddUse ≤ (hopen w p a o).1.ddUse := by
+    intro p a o
+    unfold hopen; repeat' split
+    all_goals simp [regF, setDd, setF]
+  cases op with
+  | nextread id f => simp only [step, nextRead_state]; exact ⟨fun h => h, fun _ h => h⟩
+  | hopen p a o =>
+    have := hopenF p a o
+    simp only [step]; constructor <;> intros <;> omega
+  | hopenbad p a st =>
+    simp only [step, hopenBad]
+    repeat' split
+    all_goals first
+      | exact ⟨fun h => h, fun _ h => h⟩
+      | (have := hopenF p a true; constructor <;> intros <;> omega)
+      | (have := hopenF p a (st != .os); constructor <;> intros <;> omega)
+      | (have := failed_start_keeps_dd_group w.ddUse
+         refine ⟨fun h => by simp only [setDd]; omega, fun hdd h => ?_⟩
+         have := hdd p a rfl
+         simp only [setDd]; omega)
+  | hclose id =>
+    simp only [step, hclose]
+    split
+    · exact ⟨fun h => h, fun _ h => h⟩
+    · exact ⟨fun h => h, fun _ h => h⟩
+    · rename_i q r hl
+      obtain ⟨hg, _, hget, _⟩ := lookF_file hk hl
+      have hlen := filter_key_length w.frecs hw.fkeys (getF_mem hget)
+      split
+      · exact ⟨fun h => h, fun _ h => h⟩
+      · unfold hcloseRec
+        split
+        · split
+          · exact ⟨fun h => h, fun _ h => h⟩
+          · have e1 : (setDd (aRem (delF w q) id) (w.ddUse - 1)).frecs.length + 1 = w.frecs.length := by
+              show (aRem (delF w q) id).frecs.length + 1 = _
+              rw [aRem_frecs]; exact hlen
+            have e2 : (setDd (aRem (delF w q) id) (w.ddUse - 1)).ddUse = w.ddUse - 1 := rfl
+            constructor
+            · intro h
+              show (setDd (aRem (delF w q) id) (w.ddUse - 1)).frecs.length ≤ (setDd (aRem (delF w q) id) (w.ddUse - 1)).ddUse
+              omega
+            · intro _ h
+              show (setDd (aRem (delF w q) id) (w.ddUse - 1)).frecs.length = (setDd (aRem (delF w q) id) (w.ddUse - 1)).ddUse
+              omega
+        · have e1 : (aRem (setF w q { r with refcount := r.refcount - 1 }) id).frecs.length = w.frecs.length := by
+            rw [aRem_frecs]; simp [setF]
+          have e2 : (aRem (setF w q { r with refcount := r.refcount - 1 }) id).ddUse = w.ddUse := by
+            rw [aRem_ddUse]; rfl
+          constructor
+          · intro h
+            show (aRem (setF w q { r with refcount := r.refcount - 1 }) id).frecs.length ≤
+              (aRem (setF w q { r with refcount := r.refcount - 1 }) id).ddUse
+            omega
+          · intro _ h
+            show (aRem (setF w q { r with refcount := r.refcount - 1 }) id).frecs.length =
+              (aRem (setF w q { r with refcount := r.refcount - 1 }) id).ddUse
+            omega
+  | startaccess id f wr =>
+    simp only [step, startAccess]; repeat' split
+    all_goals simp [regA, setF]
+  | endaccess id =>
+    simp only [step, endAccess]; repeat' split
+    all_goals simp [setF, delA, aRem_frecs, aRem_ddUse]
+  | usefid id => exact ⟨fun h => h, fun _ h => h⟩
+  | useaid id => exact ⟨fun h => h, fun _ h => h⟩
+
+/-- `dd_group_outlives_files`: after EVERY history — failed opens of damaged files at any point, with one, two or several other
+    files open — the use count of the DD atom group is at least the number of file records: the group, and with it the DD id of
+    every access element of every open file, exists as long as any file is open. -/
+theorem dd_group_outlives_files (cfg : Cfg) (hk : cfg.kindChecked = true) (ops : List Op) :
+    (after cfg ops).frecs.length ≤ (after cfg ops).ddUse := by
+  suffices h : ∀ w, WF w → w.frecs.length ≤ w.ddUse → (run cfg w ops).frecs.length ≤ (run cfg w ops).ddUse from
+    h World.init init_wf (by simp [World.init])
+  induction ops with
+  | nil => intro w _ h; exact h
+  | cons op t ih => intro w hw h; exact ih _ (step_wf cfg hk w op hw) ((step_dd cfg hk w op hw).1 h)
+
+/-- `dd_use_is_open_files`: a history in which no `Hopen` fails inside `HTPstart` (or any history at all, for a source whose failed
+    start leaves the count alone) leaves the use count EXACTLY at the number of open files; once every file id is released it is 0,
+    the initial state (with `full_teardown_is_init`).  In the current source every failed `HTPstart` adds one use that is never
+    given back (`ddAfterFailedStart n = n + 1`; engine statistic `failed_open_keeps_dd_use`): nothing observable follows from it —
+    the group is never destroyed, its hash table stays allocated. -/
+theorem dd_use_is_open_files (cfg : Cfg) (hk : cfg.kindChecked = true) (ops : List Op)
+    (hdd : (∀ n, ddAfterFailedStart n = n) ∨ ∀ op ∈ ops, ∀ p a, op ≠ .hopenbad p a .dd) :
+    (after cfg ops).frecs.length = (after cfg ops).ddUse := by
+  suffices h : ∀ w, WF w → w.frecs.length = w.ddUse → (run cfg w ops).frecs.length = (run cfg w ops).ddUse from
+    h World.init init_wf (by simp [World.init])
+  induction ops with
+  | nil => intro w _ h; exact h
+  | cons op t ih =>
+    intro w hw h
+    refine ih ?_ _ (step_wf cfg hk w op hw) ((step_dd cfg hk w op hw).2 ?_ h)
+    · rcases hdd with h1 | h2
+      · exact Or.inl h1
+      · exact Or.inr (fun o ho => h2 o (List.mem_cons_of_mem _ ho))
+    · intro p a hop
+      rcases hdd with h1 | h2
+      · exact h1 _
+      · exact absurd hop (h2 op List.mem_cons_self p a)
+
 /-! ## a concrete history: the hypotheses are satisfiable, and the known defect -/
 
 def fid (k : Nat) : Nat := MAKE_ATOM FIDGROUP k
 def aid (k : Nat) : Nat := MAKE_ATOM AIDGROUP k
+
+/-- one file with an access element; a damaged file fails to open (inside `HTPstart`), a directory fails to open, a bad mode is
+    refused, an unreadable element is refused: every id keeps working, everything is released, a fresh open succeeds -/
+example : results ⟨true, true, true⟩ World.init [.hopen 7 DFACC_READ true, .startaccess (fid 0) true false,
+      .hopenbad 9 DFACC_READ .dd, .useaid (aid 0), .usefid (fid 0), .hopenbad 10 DFACC_RDWR .os, .hopenbad 11 8 .magic,
+      .startaccess (fid 0) false false, .useaid (aid 0), .endaccess (aid 0), .hclose (fid 0), .hopen 7 DFACC_READ true]
+    = [.id (fid 0), .id (aid 0), .fail, .ok, .ok, .fail, .fail, .fail, .ok, .ok, .ok, .id (fid 1)] ∧
+    (run ⟨true, true, true⟩ World.init [.hopen 7 DFACC_READ true, .startaccess (fid 0) true false,
+      .hopenbad 9 DFACC_READ .dd, .endaccess (aid 0), .hclose (fid 0)]).ddUse = ddAfterFailedStart 1 - 1 := by decide
+
+example : ∀ op ∈ [Op.hopen 7 DFACC_READ true, .hopenbad 9 DFACC_READ .magic, .hclose (fid 0)], ∀ p a, op ≠ .hopenbad p a .dd := by
+  intro op hop p a; simp at hop; rcases hop with rfl | rfl | rfl <;> simp
+
 
 /-- nested opens of one path, an access element, close refused while it is attached, then full teardown -/
 example : results ⟨true, true, true⟩ World.init [.hopen 7 DFACC_READ true, .hopen 7 DFACC_RDWR true, .startaccess (fid 1) true true,
